@@ -149,6 +149,9 @@ func genNodeCase(seed uint64, tier, focus, variant string) *simk.Case {
 		for i := 0; i < nb; i++ {
 			sp := genSpec(r, i, np, focus, algo)
 			sp.Src, sp.Prev, sp.Seq, sp.HopLimit, sp.Unknown, sp.Spray, sp.Flags, sp.ReportTo = simNodeEID+"app", 0, 0, -1, nil, 0, 0, ""
+			if r.Bool(0.4) {
+				sp.Seq = uint64(r.Pick(1, 2, 3, 7)) // an application that numbers its bundles itself: the node assigns its own number anyway
+			}
 			if r.Bool(0.2) {
 				sp.Src = simNodeEID + "app2"
 			}
@@ -479,6 +482,46 @@ func genDtlsrOps(c *simk.Case, r *simk.Rand, ex *nodeExtra, np, nb int, tier str
 				if r.Bool(0.5) {
 					c.Ops = append(c.Ops, simk.Op{K: "advance", N: int64(r.Pick(1100, 5200, 20000))})
 				}
+			}
+		}
+		c.Cfg["extra"] = *ex
+		return c
+	}
+	// template: a neighbour that is lost and comes back before the purge; destinations behind it are probed
+	// right after its return (it must count as live again: cost 0) and again after the purge interval
+	// (it must still be a neighbour); a second neighbour offers a competing path over a lost link
+	if np >= 1 && r.Bool(0.25) {
+		far := r.Pick(11, 12, 13)
+		c.Cfg["purge"] = r.PickS("60s", "10m")
+		p := r.Range(1, np)
+		c.Ops = append(c.Ops, simk.Op{K: "peer_up", P: p})
+		q := 0
+		if np >= 2 {
+			q = p%np + 1
+			c.Ops = append(c.Ops, simk.Op{K: "peer_up", P: q})
+		}
+		c.Ops = append(c.Ops, simk.Op{K: "advance", N: 1200},
+			simk.Op{K: "ls", P: p, M: int64(p), N: 500, X: []int{far, 0}}) // p -> far: live
+		if q != 0 {
+			c.Ops = append(c.Ops, simk.Op{K: "advance", N: int64(r.Pick(3000, 9000))})
+		}
+		c.Ops = append(c.Ops, simk.Op{K: "peer_down", P: p}, simk.Op{K: "advance", N: int64(r.Pick(2500, 6000, 14000))})
+		if q != 0 {
+			// q -> far: lost, but later than p was lost (a cheaper lost link than p's stale loss time)
+			c.Ops = append(c.Ops, simk.Op{K: "ls", P: q, M: int64(q), N: int64(r.Pick(20000, 25000)), X: []int{far, int(r.Pick(19000, 24000)) + 1}})
+		}
+		c.Ops = append(c.Ops, simk.Op{K: "peer_up", P: p}, simk.Op{K: "advance", N: int64(r.Pick(11000, 21000))}) // the manager restarts the adapter on a retry tick
+		for i := range ex.Bundles {
+			if i < 2 {
+				ex.Bundles[i].Dst, ex.Bundles[i].Prev = lsNode(far), 0
+				c.Ops = append(c.Ops, simk.Op{K: "deliver", B: i}, simk.Op{K: "advance", N: 5200})
+			}
+		}
+		c.Ops = append(c.Ops, simk.Op{K: "advance", N: int64(r.Pick(65000, 130000))})
+		for i := range ex.Bundles {
+			if i >= 2 && i < 4 {
+				ex.Bundles[i].Dst, ex.Bundles[i].Prev = lsNode(far), 0
+				c.Ops = append(c.Ops, simk.Op{K: "deliver", B: i}, simk.Op{K: "advance", N: 5200})
 			}
 		}
 		c.Cfg["extra"] = *ex
